@@ -82,7 +82,7 @@ def plan(tier, seed):
     cases = []
     for i in range(N_FREE[tier]):
         rng = core.case_rng(seed, PROPERTY, i)
-        cfg = precip_gen.gen_config(rng, tier=tier, allow_noniso=(i % 4 == 0), out_of_window=(i % 5 == 1),
+        cfg = precip_gen.gen_config(rng, system=('cuti' if i % 7 == 3 else None), tier=tier, allow_noniso=(i % 4 == 0), out_of_window=(i % 5 == 1),
                                     grid_class=('out_of_range' if i % 6 == 2 else None), allow_beta2=True, allow_dtfrac=True, allow_elastic=True)
         cfg['max_steps'] = min(cfg['max_steps'], 800 if tier == 'quick' else 4000)
         cases.append({'kind': 'free', 'cfg': cfg, 'weight': precip_gen.cfg_weight(cfg)})
